@@ -153,6 +153,10 @@ def not_inert_reason(lines):
         return 'code span'
     if '](' in text or '][' in text:
         return 'link syntax'
+    if text.startswith('[') and ']:' in text and not surely_no_definition(lines[0]):
+        return 'possible link reference definition'      # (a label may run over several lines)
+    if re.search(r"<[A-Za-z0-9.!#$%&'*+/=?^_`{|}~-]+@[A-Za-z0-9]", text):
+        return 'possible e-mail autolink'
     for m in re.finditer(r'<', text):
         nxt = text[m.end():m.end() + 1]
         if nxt and (nxt.isalpha() or nxt in '/!?') and '>' in text[m.end():]:
